@@ -188,11 +188,12 @@ def exec_nesting():
             'word = word + 2.5; println(word);', 'word = 5 + word; println(word);', 'string t2 = word + a; println(t2);', 'word = word + true; println(word);', 'println(word + zero);',
             'string t5 = 5; println(t5);', 'string t6 = a; println(t6);', 'word = word - 1; println(word);', 'word = 2 - word; println(word);', 'word = word | 1; println(word);',
             'word = word * 2; println(word);', 'double dd = 2.5; string t7 = dd; println(t7);',
+            'static string s4 = 4; println(s4);',
             'setc(word, 0); println(word);', 'setc(word, 100000); println(word);', 'println(getc(word, 1)); println(getc(word, 9));',
             'println("{z[9]}");', 'println("{a / zero}");', 'println("{word[9]}");', 'string r = "{m[5][5]}"; println(r);',
             'Option<int> o = Option<int>::None; match (o) { Some(v) => { println(v); } }', 'int x = z[z[3] + z[3]];', 'z[z[3] * 2] = z[9];']
     for i, f in enumerate(errs):
-        slug = "emptystr" if f.startswith("empty[") else "strmisc" if (f.startswith("string t5") or f.startswith("string t6") or "word - 1" in f or "2 - word" in f or "word | 1" in f or "word * 2" in f or "string t7" in f) else "strplus" if ("word + " in f or "+ word" in f or "word +=" in f or '"a" + 1' in f) else "strref" if ("setc(" in f or "getc(" in f) else ("strstore" if ("word[" in f and "= '" in f) or "t[5] =" in f or "s.n[4]" in f or "big2[" in f else "other")
+        slug = "emptystr" if f.startswith("empty[") else "strstatic" if f.startswith("static string") else "strmisc" if (f.startswith("string t5") or f.startswith("string t6") or "word - 1" in f or "2 - word" in f or "word | 1" in f or "word * 2" in f or "string t7" in f) else "strplus" if ("word + " in f or "+ word" in f or "word +=" in f or '"a" + 1' in f) else "strref" if ("setc(" in f or "getc(" in f) else ("strstore" if ("word[" in f and "= '" in f) or "t[5] =" in f or "s.n[4]" in f or "big2[" in f else "other")
         out.append(("exec-error-path-%s-%d" % (slug, i), ep("    %s\n" % f)))
     # struct definitions that share members (diamonds): the cycle check must stay polynomial
     for n in (8, 14, 20, 26, 32):
